@@ -366,6 +366,94 @@ impl Check for CatCheck {
     }
 }
 
+/// Long pieces: a short prefix fed by add, then ONE long piece (255..4096 items) through
+/// extend(values) / extend(references), and whole long sequences through collect — compared
+/// bit-for-bit with the plain add loop (an implementation may treat long iterators differently,
+/// e.g. through size_hint).
+pub struct LongPieces<T: Ingest> {
+    pub alpha_name: String,
+    pub alpha: Vec<T::Item>,
+}
+impl<T: Ingest> LongPieces<T> {
+    fn cases(&self) -> Vec<(Vec<T::Item>, usize, usize)> {
+        let mut v = Vec::new();
+        for l in 1..=2 {
+            for w in words(&self.alpha, l) {
+                for prefix in [0usize, 1, 3] {
+                    for len in [255usize, 256, 257, 1000, 4096] {
+                        v.push((w.clone(), prefix, len));
+                    }
+                }
+            }
+        }
+        v
+    }
+    fn judge(&self, w: &[T::Item], prefix: usize, len: usize) -> Vec<Violation> {
+        let seq: Vec<T::Item> = (0..prefix + len).map(|i| w[i % w.len()]).collect();
+        let refr = reference::<T>(&seq);
+        let mut out = Vec::new();
+        let mut cmp = |how: &str, e: Result<T, String>| match e {
+            Err(m) => out.push(Violation { sig: format!("{}.{how}:panic:long-piece", T::NAME), detail: m }),
+            Ok(e) => {
+                if e.dbg() != refr.dbg() || !e.observe_().bits_eq(&refr.observe_()) {
+                    out.push(Violation {
+                        sig: format!("{}.{how}:differs-from-add-loop:long-piece", T::NAME),
+                        detail: format!("{}: {prefix} adds then {how} of {len} items (word {:?} repeated) gives {} but the add loop gives {}", T::NAME, w, e.dbg(), refr.dbg()),
+                    });
+                }
+            }
+        };
+        let (pre, piece) = seq.split_at(prefix);
+        let base = reference::<T>(pre);
+        let b = base.clone();
+        cmp("extend-values", guarded(move || { let mut b = b; if !b.extend_vals(piece) { for i in piece { b.add_item(*i); } } b }));
+        let b = base.clone();
+        cmp("extend-references", guarded(move || { let mut b = b; if !b.extend_refs(piece) { for i in piece { b.add_item(*i); } } b }));
+        if prefix == 0 {
+            cmp("collect-values", guarded(|| T::collect_vals(&seq)));
+            cmp("collect-references", guarded(|| T::collect_refs(&seq)));
+        }
+        out
+    }
+}
+impl<T: Ingest> Check for LongPieces<T> {
+    fn name(&self) -> String {
+        format!("C20/long-pieces/{}/{}", T::NAME, self.alpha_name)
+    }
+    fn run(&self) -> Stats {
+        let t0 = std::time::Instant::now();
+        let cases = self.cases();
+        let mut st = Stats { spec: self.name(), depth_requested: 4096, depth_completed: 4096, ..Default::default() };
+        let res: Vec<Vec<Violation>> = cases.par_iter().map(|(w, p, l)| self.judge(w, *p, *l)).collect();
+        let mut found: std::collections::BTreeMap<String, Found> = Default::default();
+        for ((w, p, l), vs) in cases.iter().zip(res) {
+            st.states += 1;
+            st.transitions += 4 * (*p + *l) as u64;
+            for v in vs {
+                let e = found.entry(v.sig.clone()).or_insert(Found { sig: v.sig, detail: v.detail, path: vec![json!({"word": w.iter().map(|i| T::item_json(i)).collect::<Vec<_>>()}), json!({"prefix": p, "piece": l})], count: 0 });
+                e.count += 1;
+            }
+        }
+        st.maximal = st.states;
+        st.nontrivial_states = st.states;
+        st.outcomes = st.states;
+        let (w, p, l) = &cases[cases.len() / 2];
+        st.samples.push(json!({"spec": self.name(), "history": [{"word": w.iter().map(|i| T::item_json(i)).collect::<Vec<_>>()}, {"adds": p}, {"then_one_piece_of": l}]}));
+        st.found = found.into_values().collect();
+        st.wall_s = t0.elapsed().as_secs_f64();
+        st
+    }
+    fn replay(&self, path: &[Value]) -> Result<Vec<Violation>, String> {
+        let w: Vec<T::Item> = path.first().and_then(|v| v.get("word")).and_then(|w| w.as_array()).ok_or("no word")?.iter().map(|i| T::item_parse(i)).collect::<Option<Vec<_>>>().ok_or("bad word")?;
+        let p = path.get(1).and_then(|v| v.get("prefix")).and_then(|p| p.as_u64()).ok_or("no prefix")? as usize;
+        let l = path.get(1).and_then(|v| v.get("piece")).and_then(|p| p.as_u64()).ok_or("no piece")? as usize;
+        Ok(self.judge(&w, p, l))
+    }
+}
+fn longp<T: Ingest>(name: &str, alpha: Vec<T::Item>) -> Box<dyn Check> {
+    Box::new(LongPieces::<T> { alpha_name: name.into(), alpha })
+}
+
 fn ing<T: Ingest>(name: &str, alpha: Vec<T::Item>, max_len: usize) -> Box<dyn Check> {
     Box::new(Bfs::new(IngestSpec::<T> { alpha_name: name.into(), alpha, max_len, max_piece: 3 }, max_len + 2))
 }
@@ -385,6 +473,19 @@ pub fn plan(tier: Tier) -> Plan {
         checks.push(ing::<U<Min>>(a, al.clone(), l));
         checks.push(ing::<U<Max>>(a, al.clone(), l));
     }
+    for a in ["tri", "off9"] {
+        let al = sub_alphabet(a, 3);
+        checks.push(longp::<U<Mean>>(a, al.clone()));
+        checks.push(longp::<U<Variance>>(a, al.clone()));
+        checks.push(longp::<U<Skewness>>(a, al.clone()));
+        checks.push(longp::<U<Kurtosis>>(a, al.clone()));
+        checks.push(longp::<U<Moments4>>(a, al.clone()));
+        checks.push(longp::<U<Min>>(a, al.clone()));
+        checks.push(longp::<U<Max>>(a, al.clone()));
+    }
+    checks.push(longp::<WeightedMean>("w3", vec![(-1., 0.), (0.1, 0.5), (3., 1e6)]));
+    checks.push(longp::<WeightedMeanWithError>("w3", vec![(-1., 0.), (0.1, 0.5), (3., 1e6)]));
+    checks.push(longp::<Covariance>("corr3", vec![(1., 5.), (2., 4.1), (-3., 0.1)]));
     let wp = vec![(-1., 0.), (0.1, 0.5), (3., 1e6)];
     checks.push(ing::<WeightedMean>("w3", wp.clone(), l));
     checks.push(ing::<WeightedMeanWithError>("w3", wp, l));
@@ -397,7 +498,7 @@ pub fn plan(tier: Tier) -> Plan {
         }
     }
     Plan {
-        rule: "for every type with FromIterator/Extend (Mean, Variance, Skewness, Kurtosis, Moments4, M6, Min, Max (collect only: no Extend impl exists), WeightedMean, WeightedMeanWithError, Covariance): every sequence up to the length bound over 3-value alphabets built by every initial piece new()/default()/collect(values)/collect(references) followed by every composition into pieces of length <= 3 (and empty extends) fed by add loop / extend(values) / extend(references); the Debug string and every accessor must be bit-identical to the plain add loop and estimate() bit-equal to the headline accessor; four concatenate! structs (2, 2, 3, 4 fields, short and long syntax, with Quantile) compared accessor by accessor with the solo estimators for new(), default(), collect by value and by reference".into(),
+        rule: "long pieces: a prefix of 0/1/3 adds followed by ONE piece of 255, 256, 257, 1000 or 4096 items through extend(values)/extend(references), and whole sequences of those lengths through collect, compared bit-for-bit with the add loop; AND for every type with FromIterator/Extend (Mean, Variance, Skewness, Kurtosis, Moments4, M6, Min, Max (collect only: no Extend impl exists), WeightedMean, WeightedMeanWithError, Covariance): every sequence up to the length bound over 3-value alphabets built by every initial piece new()/default()/collect(values)/collect(references) followed by every composition into pieces of length <= 3 (and empty extends) fed by add loop / extend(values) / extend(references); the Debug string and every accessor must be bit-identical to the plain add loop and estimate() bit-equal to the headline accessor; four concatenate! structs (2, 2, 3, 4 fields, short and long syntax, with Quantile) compared accessor by accessor with the solo estimators for new(), default(), collect by value and by reference".into(),
         assumptions: common_assumptions(),
         checks,
     }
